@@ -1078,7 +1078,8 @@ impl Sys {
     }
 
     pub fn ack_for(&self, i: usize, reason: u8, tag: &str) -> Option<SPacket> {
-        let o = &self.m.ops[i];
+        // (after a violation `apply` is inert: an operation a scenario believes it has started may not exist)
+        let o = self.m.ops.get(i)?;
         let pid = o.pid;
         // an acknowledgement that is already on its way (context not polled yet) is not sent twice
         if let Some(pid) = pid {
